@@ -43,7 +43,9 @@ func (o *Obligation) Key() string { return o.Rule + "|" + o.Func + "|" + o.Const
 
 // Ctx is the loaded, type-checked, SSA-built program plus the obligations collected.
 type Ctx struct {
-	RepoDir string
+	Mod        string // module path prefix of the analysed module ("tkestack.io/galaxy/")
+	GuardSpecs []guardSpec
+	RepoDir    string
 	Pkgs    []*packages.Package
 	byPath  map[string]*packages.Package
 	Prog    *ssa.Program
@@ -66,6 +68,11 @@ var loadPatterns = []string{"./pkg/...", "./cni/...", "./cmd/...", "./tools/..."
 
 // Load type-checks the module packages of repoDir (optionally with an overlay) and builds SSA.
 func Load(repoDir string, overlay map[string][]byte, allSyntax bool) (*Ctx, error) {
+	return LoadMod(repoDir, overlay, allSyntax, modPath, loadPatterns, guardSpecs)
+}
+
+// LoadMod loads an arbitrary module (used for the engine self-tests on /verif/checker/testdata).
+func LoadMod(repoDir string, overlay map[string][]byte, allSyntax bool, mod string, patterns []string, specs []guardSpec) (*Ctx, error) {
 	mode := packages.LoadSyntax
 	if allSyntax || len(overlay) > 0 {
 		// with an overlay, mixing export data and source-checked packages yields duplicate types.Package
@@ -84,7 +91,7 @@ func Load(repoDir string, overlay map[string][]byte, allSyntax bool) (*Ctx, erro
 	env = append(env, "GOFLAGS=-mod=mod", "GOWORK=off", "GOPROXY=off", "GOSUMDB=off", "GOTOOLCHAIN=local",
 		"GOOS=linux", "GOARCH=amd64", "CGO_ENABLED=0")
 	cfg := &packages.Config{Mode: mode, Dir: repoDir, Env: env, Overlay: overlay, Tests: false}
-	pkgs, err := packages.Load(cfg, loadPatterns...)
+	pkgs, err := packages.Load(cfg, patterns...)
 	if err != nil {
 		return nil, fmt.Errorf("packages.Load: %v", err)
 	}
@@ -93,7 +100,7 @@ func Load(repoDir string, overlay map[string][]byte, allSyntax bool) (*Ctx, erro
 	}
 	var errs []string
 	packages.Visit(pkgs, nil, func(p *packages.Package) {
-		if !strings.HasPrefix(p.PkgPath, modPath) {
+		if !strings.HasPrefix(p.PkgPath, mod) {
 			return
 		}
 		for _, e := range p.Errors {
@@ -108,7 +115,7 @@ func Load(repoDir string, overlay map[string][]byte, allSyntax bool) (*Ctx, erro
 	}
 	prog, _ := ssautil.AllPackages(pkgs, ssa.InstantiateGenerics)
 	prog.Build()
-	c := &Ctx{RepoDir: repoDir, Pkgs: pkgs, Prog: prog, byPath: map[string]*packages.Package{},
+	c := &Ctx{Mod: mod, GuardSpecs: specs, RepoDir: repoDir, Pkgs: pkgs, Prog: prog, byPath: map[string]*packages.Package{},
 		ruleDocs: map[string]string{}, ruleMin: map[string]int{}, idx: map[*ssa.Function]map[ssa.Instruction]int{}}
 	for _, p := range pkgs {
 		c.byPath[p.PkgPath] = p
@@ -120,7 +127,7 @@ func Load(repoDir string, overlay map[string][]byte, allSyntax bool) (*Ctx, erro
 		if fn.Blocks == nil || fn.Pkg == nil || fn.Synthetic != "" {
 			continue
 		}
-		if !strings.HasPrefix(fn.Pkg.Pkg.Path(), modPath) {
+		if !strings.HasPrefix(fn.Pkg.Pkg.Path(), mod) {
 			continue
 		}
 		c.SrcFns = append(c.SrcFns, fn)
@@ -143,7 +150,7 @@ func fnName(fn *ssa.Function) string {
 
 // Fn resolves "pkg/ipam/floatingip", "(*crdIpam).Release" | "walkIPRanges" | "New$1" to an SSA function.
 func (c *Ctx) Fn(pkg, name string) *ssa.Function {
-	full := modPath + pkg
+	full := c.Mod + pkg
 	var want string
 	if strings.HasPrefix(name, "(") {
 		// (*T).M  or (T).M
@@ -282,7 +289,7 @@ func (c *Ctx) instrIndex(in ssa.Instruction) int {
 
 // namedType finds a named type in a module package.
 func (c *Ctx) namedType(pkg, name string) *types.Named {
-	p := c.Prog.ImportedPackage(modPath + pkg)
+	p := c.Prog.ImportedPackage(c.Mod + pkg)
 	if p == nil {
 		return nil
 	}
@@ -296,7 +303,7 @@ func (c *Ctx) namedType(pkg, name string) *types.Named {
 
 // constVal returns the compile-time value of a package-level constant.
 func (c *Ctx) constString(pkg, name string) (string, bool) {
-	p := c.Prog.ImportedPackage(modPath + pkg)
+	p := c.Prog.ImportedPackage(c.Mod + pkg)
 	if p == nil {
 		return "", false
 	}
